@@ -73,7 +73,7 @@ def translate():
             with open(dst, 'w') as f:
                 f.write(new)
     for fn in os.listdir(GEN):
-        if fn not in os.listdir(tmpgen) and not (fn.startswith('K') or fn in ('Exact.lean', 'Checks.lean')):
+        if fn not in os.listdir(tmpgen) and not (fn.startswith('K') or fn in ('Exact.lean', 'Checks.lean', 'Safe.lean')):
             os.remove(os.path.join(GEN, fn))
     shutil.rmtree(ast, ignore_errors=True)
     _translated = {'ok': True, 'log': p.stdout, 'summary': json.load(open(js)), 'cpp': cpp, 'wall': time.time() - t0}
